@@ -4,6 +4,9 @@ import os, re, json
 HERE = os.path.dirname(os.path.dirname(os.path.abspath(__file__)))
 p = os.path.join(HERE, "DESIGN.md")
 s = open(p).read()
+a = s.index("| check | quick: cases / non-trivial / s | thorough: cases / non-trivial / s |")
+b = s.index("All 19 quick commands take about", a)
+head, s, tail = s[:a], s[a:b], s[b:]        # only the cost table is rewritten
 for i in range(1, 20):
     pid = "C%02d" % i
     e = json.load(open(os.path.join(HERE, "evidence", pid + ".json")))
@@ -12,4 +15,4 @@ for i in range(1, 20):
     c = e["coverage"]
     new = "%d / %d / %d" % (c["evaluations"], c["distinct_nontrivial"], round(e["wall_s"]))
     s = re.sub(r"(\| %s \| )[^|]*( \| )" % pid, lambda m: m.group(1) + new + m.group(2), s, count=1)
-open(p, "w").write(s)
+open(p, "w").write(head + s + tail)
